@@ -1,7 +1,7 @@
 //! Namespace cache operations (C14): sequential query histories and real threads on a cold namespace,
 //! observed through the verif hook (every cache touch and guard drop, globally sequenced).
 use crate::absval::{cps, tags, text_of};
-use crate::ops_defs::{grid_of, load_event, real_defs_grid};
+use crate::ops_defs::{deep_rows, grid_of, load_event, real_defs_grid};
 use crate::util::{guarded, Out, Rng};
 use libhaystack::defs::namespace::{DefDict, Namespace};
 use libhaystack::val::*;
@@ -188,13 +188,18 @@ pub fn rec(out: &mut Out, seed: u64, rounds: usize) -> Result<(), String> {
     let real = real_defs_grid()?;
     let mut real_syms: Vec<String> = real.rows.iter().filter_map(|r| r.get_symbol("def").map(|s| s.value.clone())).collect();
     real_syms.sort();
+    let deep_r = deep_rows(64);
+    let deep = grid_of(&deep_r, false);
+    let mut deep_syms: Vec<String> = deep_r.iter().map(|r| r.0.clone()).collect();
+    deep_syms.push("undef0".into());
     for r in 0..rounds {
         let threads = [2usize, 4, 8, 16][r % 4];
         let use_real = r % 5 == 4;
-        let (grid, syms) = if use_real { (&real, &real_syms) } else { (&small, &small_syms) };
+        let use_deep = r % 5 == 2;
+        let (grid, syms) = if use_real { (&real, &real_syms) } else if use_deep { (&deep, &deep_syms) } else { (&small, &small_syms) };
         let per = if use_real { 3 } else { 1 + rng.below(4) };
         let queries: Vec<Vec<Q>> = (0..threads).map(|_| (0..per).map(|_| random_query(&mut rng, syms)).collect()).collect();
-        round(out, grid, queries, if use_real { "real" } else { "small" });
+        round(out, grid, queries, if use_real { "real" } else if use_deep { "deep" } else { "small" });
     }
     Ok(())
 }
